@@ -104,7 +104,19 @@ def runner(rep, tier, seed, replay):
         jobs.append({"entry": "c", "text": line, "timeout": 6, "want_files": False, "env": {"HOME": "/vhome/u"}})
         exp = {"home": ["/vhome/u"], "home-slash": ["/vhome/u/a"], "literal": [w], "quoted": [w.strip("'\"")]}.get(kind)
         meta.append(("tilde", kind, line, ["L"], ["R"], exp or [w], {"t": w, "feat": {"tilde": kind}}, kind == "other-user", None))
-    log("[C12] %d cases (%d brace strings of %d enumerated, %d ranges/globs, 7 tilde)" % (len(jobs), len(br), nbr, len(rg)))
+    # ---- pairs: two expansion words of different kinds in one command (the words of the line keep their relative order; an
+    # expansion of one word must not disturb its neighbour) - the second word never is a glob, so one population suffices
+    single = [m for m in meta if not m[7] and m[0] in ("brace", "range", "glob") and (m[0] != "brace" or "{" in m[6]["t"])]
+    nonglob = [m for m in single if m[0] != "glob"]
+    npairs = 400 if tier == "quick" else 6000
+    for _ in range(min(npairs, len(single))):
+        m1, m2 = rnd.choice(single), rnd.choice(nonglob)
+        t1, t2 = m1[6]["t"], m2[6]["t"]
+        line = "vpa %s 'q q' %s" % (t1, t2)
+        files = m1[6].get("files", {})
+        jobs.append({"entry": "c", "text": line, "files": files, "timeout": 6, "want_files": False})
+        meta.append(("pair", m1[0] + "+" + m2[0], line, [], [], m1[5] + ["q q"] + m2[5], {"t": t1 + " " + t2, "files": files, "feat": {"pair": True}}, False, None))
+    log("[C12] %d cases (%d brace strings of %d enumerated, %d ranges/globs, 7 tilde, pairs)" % (len(jobs), len(br), nbr, len(rg)))
     results = run_cases(jobs)
     distinct = set()
     for (kind, key, line, b, a, words, case, neg, alts), j, res in zip(meta, jobs, results):
